@@ -990,6 +990,15 @@ impl<'a, Outputter: HCValueOutputter> HCPrinter<'a, Outputter> {
             (false, false)
         };
 
+        // a rational that is not an integer is written as an rdiv/2 term, piece
+        // by piece: print_rational brackets it according to its context.
+        let is_rdiv_term = match &n {
+            NumberFocus::Unfocused(Number::Rational(r)) => !r.is_int(),
+            _ => false,
+        };
+
+        let add_brackets = add_brackets && !is_rdiv_term;
+
         if add_brackets {
             if op_is_prefix && !self.outputter.ends_with(" ") {
                 push_char!(self, ' ');
@@ -1082,6 +1091,16 @@ impl<'a, Outputter: HCValueOutputter> HCPrinter<'a, Outputter> {
                 };
 
                 if !self.ignore_ops && op_desc.get_prec() > 0 {
+                    // N rdiv D is an operator term like any other.
+                    let add_brackets = parent_op
+                        .as_ref()
+                        .map(|op| needs_bracketing(*op_desc, op))
+                        .unwrap_or(false);
+
+                    if add_brackets {
+                        self.state_stack.push(TokenOrRedirect::Close);
+                    }
+
                     self.state_stack.push(TokenOrRedirect::NumberFocus(
                         max_depth,
                         NumberFocus::Denominator(r),
@@ -1095,7 +1114,21 @@ impl<'a, Outputter: HCValueOutputter> HCPrinter<'a, Outputter> {
                         right_directed_op,
                     ));
 
-                    self.set_parent_of_first_op(parent_op);
+                    if add_brackets {
+                        self.state_stack.push(TokenOrRedirect::Open);
+
+                        if let Some(op) = &parent_op {
+                            if op.is_left()
+                                && (op.is_prefix()
+                                    || requires_space(&op.as_atom().as_str(), "("))
+                                && !self.outputter.ends_with(" ")
+                            {
+                                self.state_stack.push(TokenOrRedirect::Space);
+                            }
+                        }
+                    } else {
+                        self.set_parent_of_first_op(parent_op);
+                    }
                 } else {
                     self.state_stack.push(TokenOrRedirect::Close);
 
